@@ -265,13 +265,15 @@ def refactors(pids, apply=False):
     if out.strip():
         print("refusing: /repo has local modifications"); return 2
     for pid in pids:
-        for outd in (f"/tmp/seed/{pid}-out3", f"/tmp/seed/{pid}-outR2", f"/tmp/seed/{pid}-outR3"):
+        for outd in (f"/tmp/seed/{pid}-out3", f"/tmp/seed/{pid}-outR2", f"/tmp/seed/{pid}-outR3", f"/tmp/seed/{pid}-outR4"):
             if not os.path.isdir(outd):
                 continue
             for sub in sorted(os.listdir(outd)):
                 srcd = os.path.join(outd, sub)
                 if sub.upper().startswith("R") and os.path.isfile(os.path.join(srcd, "patch.diff")):
                     dst = os.path.join(VERIF, "refactors", f"{pid}{sub.lower()}")
+                    if os.path.isfile(os.path.join(dst, "patch.diff")):
+                        continue      # already imported (and possibly re-based since): never overwrite
                     os.makedirs(dst, exist_ok=True)
                     for fn in ("patch.diff", "equiv.py", "meta.json"):
                         if os.path.isfile(os.path.join(srcd, fn)):
